@@ -1,4 +1,4 @@
-"""C06 -- signature changes keep calls bound to the same values (R06.1-R06.8)."""
+"""C06 -- signature changes keep calls bound to the same values (R06.1-R06.9)."""
 from __future__ import annotations
 
 import ast
@@ -290,3 +290,8 @@ def check(ctx, res) -> None:
                     f"the implicit first argument of a method call is cut with `{ast.unparse(c.func)}` at the FIRST dot: `self.inner.scale(2, 3)` is re-emitted "
                     "as `self.scale(...)`, i.e. with another receiver", function=cp.qualname)
     res.floor("R06.8", "receiver splits in the call parser", n8, 1)
+
+    # ---- R06.9 text handed back by the word finder is cut from the raw source, never from the blanked search text
+    from .common import raw_text_rule
+
+    raw_text_rule(ctx, res, "R06.9")
